@@ -138,7 +138,12 @@ def lattice(draw, min_cells: int = 2, max_cells: int = 8, jitter: str = "maybe",
     k = draw(st.integers(min_cells, min(max_cells, ncell)))
     cells = draw(st.permutations(list(range(ncell))))[:k]
     orient = [draw(st.integers(0, 23)) for _ in cells]
-    return {"dims": list(dims), "widths": widths, "jitter": jit, "cells": list(cells), "orient": orient, "chops": []}
+    case = {"dims": list(dims), "widths": widths, "jitter": jit, "cells": list(cells), "orient": orient, "chops": []}
+    if draw(st.integers(0, 3)) == 0:
+        # the assembly sits far from the origin (geo-referenced coordinates): nothing may depend on that
+        mag = draw(st.sampled_from([1e3, 1e5, 2e6]))
+        case["offset"] = [mag * draw(st.sampled_from([1.0, -1.0, 0.0, 2.1])) for _ in range(3)]
+    return case
 
 
 def count_chop(draw, lo: int = 1, hi: int = 12) -> Dict[str, Any]:
